@@ -263,6 +263,23 @@ def attr_value(rng, name):
                        'é\U0001f600', '\x00', 'expression(1)', '--', '&amp;amp;'])
 
 
+# Names with the characters `genshi.core.QName` gives a meaning to: `QName('}x')` has the EMPTY
+# namespace (string value '{}x'), `QName('{x')` is plain 'x', `QName('u}x')` is x in namespace u.
+# html.parser yields such attribute (and, after a first letter, element) names from tag soup.
+# With the flag off the generators draw exactly what they drew before this pressure was added.
+ODD_NAMES = True
+NAME_NOISE = ['}', '{', '{}', '{u}', 'u}', 'x:', ':', '{{', '}}', '{urn:x}', '{}}']
+ODD_TAGS_V = ['a}b', 'u}input', 'p{', 'b:}i', 'u}script', 'a{}b', 'input}', 'i{nput', 'a}', 'td{}', 'x:}a', 'a:b}c}d']
+
+
+def odd_name(rng, name):
+    """an (attribute) name with a brace or colon put in front of it or into it"""
+    if rng.random() < 0.7:
+        return rng.choice(NAME_NOISE) + name
+    i = rng.randrange(0, len(name) + 1)
+    return name[:i] + rng.choice(['{', '}', ':', '{}']) + name[i:]
+
+
 def attrs_for(rng, allow_style=True):
     n = rng.choice([0, 0, 1, 1, 2, 3, 4])
     out = []
@@ -276,7 +293,10 @@ def attrs_for(rng, allow_style=True):
             name = rng.choice(UNSAFE_ATTRS_V)
         if rng.random() < 0.15:
             name = ''.join(c.upper() if rng.random() < 0.5 else c for c in name)
-        out.append((name, attr_value(rng, name)))
+        value = attr_value(rng, name)
+        if ODD_NAMES and rng.random() < 0.07:
+            name = odd_name(rng, name)
+        out.append((name, value))
     return out
 
 
@@ -293,7 +313,7 @@ def soup_elem(rng, depth, out, allow_style=True):
     elif r < 0.92:
         tag = rng.choice(UNSAFE_TAGS_V)
     else:
-        tag = rng.choice(['svg:script', 'x:a', 'a:b:c', 'scr\x00ipt', 'oK', 'a-', 'p.q', 'SCRIPT', 'Div', 'IMG'])
+        tag = rng.choice(['svg:script', 'x:a', 'a:b:c', 'scr\x00ipt', 'oK', 'a-', 'p.q', 'SCRIPT', 'Div', 'IMG'] + (ODD_TAGS_V if ODD_NAMES else []))
     if rng.random() < 0.15:
         tag = ''.join(c.upper() if rng.random() < 0.5 else c for c in tag)
     parts = ['<', tag]
@@ -374,7 +394,12 @@ def raw_qname(rng, pool, unsafe_pool):
     if r < 0.90:
         return ('', rng.choice(unsafe_pool))
     return rng.choice([('http://www.w3.org/1999/xhtml', 'a'), ('http://www.w3.org/2000/svg', 'script'),
-                       ('urn:x', rng.choice(pool)), ('', 'A'), ('', 'Script'), ('', 'a b'), ('', 'x:y'), ('', '')])
+                       ('urn:x', rng.choice(pool)), ('', 'A'), ('', 'Script'), ('', 'a b'), ('', 'x:y'), ('', '')] + (
+                      # what QName() makes of braces: '}a' = a in the EMPTY namespace (value '{}a'),
+                      # '{a' = plain a, 'u}a' = a in namespace u, 'a}b}c' = local name 'b}c'
+                      [('', '}' + rng.choice(pool)), ('', '{' + rng.choice(pool)), ('', 'u}' + rng.choice(pool)),
+                       ('', '}input'), ('', '}'), ('u', 'b}' + rng.choice(pool)), ('', rng.choice(ODD_TAGS_V))]
+                      if ODD_NAMES else []))
 
 
 def raw_attr_value(rng, name):
@@ -390,15 +415,19 @@ def raw_node(rng, depth):
         # elements of the same name nested in it and content after them: the dropping state must
         # count same-name STARTs whether or not they are safe by themselves (seeded change C06-2)
         pw = rng.choice(['password', 'PASSWORD', 'Password'])
+        # the rule looks at QName.localname: also `input` in a namespace, in the EMPTY namespace
+        # ('}input' = '{}input') and spelled '{input' (= plain input)
+        itag = rng.choice([('', 'input')] * 4 + [('', '}input'), ('u', 'input'), ('http://www.w3.org/1999/xhtml', 'input'),
+                                                 ('', '{input'), ('u', 'x}input')]) if ODD_NAMES else ('', 'input')
         kids = []
         for _ in range(rng.choice([1, 1, 2])):
-            kids.append(('elem', ('', 'input'), [(('', 'type'), rng.choice(['text', 'checkbox']))] if rng.random() < 0.6 else [],
+            kids.append(('elem', itag, [(('', 'type'), rng.choice(['text', 'checkbox']))] if rng.random() < 0.6 else [],
                          [raw_node(rng, depth + 2)] if rng.random() < 0.3 else []))
             if rng.random() < 0.8:
                 kids.append(('leaf', ('T', text_payload(rng), False)))
         if rng.random() < 0.5:
             kids.append(raw_node(rng, depth + 2))
-        return ('elem', ('', 'input'), [(('', 'type'), pw)], kids)
+        return ('elem', itag, [(('', 'type'), pw)], kids)
     if r < 0.55 and depth < 5:
         tag = raw_qname(rng, SAFE_TAGS_V, UNSAFE_TAGS_V)
         attrs = []
@@ -427,17 +456,29 @@ def raw_node(rng, depth):
         return ('leaf', ('PI', rng.choice(['php', 'xml', 'x', 'x>']),
                          rng.choice(['echo 1', '', 'a="b"', 'a><script>alert(1)</script', '>', 'x ?><img src=x onerror=alert(1)><?y '])))
     if r < 0.94:
+        if rng.random() < 0.5:
+            # a `>` in the name or an identifier (a system identifier may hold it in XML): an HTML
+            # parser ends the declaration there (finding C06-doctype-markup, repaired); also quotes
+            evil = rng.choice(['x\'><script>alert(1)</script>', 'x"><script>alert(1)</script>', '>', 'a>b', 'p"q', "p'q\"r",
+                               '><img src=x onerror=alert(1)>'])
+            k = rng.randrange(3)
+            return ('leaf', ('DT', evil if k == 0 else 'html', evil if k == 1 else rng.choice([None, '-//W3C//DTD XHTML 1.0 Strict//EN']),
+                             evil if k == 2 else rng.choice([None, 'x.dtd'])))
         return ('leaf', ('DT', 'html', rng.choice([None, '-//W3C//DTD XHTML 1.0 Strict//EN']), rng.choice([None, 'x.dtd'])))
     if r < 0.96:
         return ('leaf', ('NS', rng.choice(['', 'svg']), 'http://www.w3.org/2000/svg'))
     if r < 0.98:
         return ('leaf', ('ENS', rng.choice(['', 'svg'])))
-    # balanced CDATA sections are back since C06-cdata-html was repaired in genshi/output.py (fix
-    # c5a55cd); an unclosed START_CDATA stays out: the xhtml serializer would open a section that
-    # swallows the rest of the document, which no reader can judge
-    if rng.random() < 0.5:
-        return ('seq', [('SC',), ('T', text_payload(rng), False), ('EC',)])
-    return ('leaf', rng.choice([('EC',), ('XD', '1.0', None, -1)]))
+    # CDATA markers in every arrangement: a section around text (also text that holds `]]>` or
+    # markup), around a whole subtree, unclosed, or a stray end marker -- the repaired filter passes
+    # no marker on (C06-cdata-markers), so the text is escaped by every serializer
+    r = rng.random()
+    if r < 0.45:
+        return ('seq', [('SC',), ('T', rng.choice([text_payload(rng), ']]><script>alert(1)</script>', 'a><script>alert(1)</script>',
+                                                   '<script>alert(1)</script>', ']]>']), False), ('EC',)])
+    if r < 0.6:
+        return ('seq', [('SC',)] + flatten(raw_node(rng, depth + 2), []) + [('EC',)])
+    return ('leaf', rng.choice([('EC',), ('SC',), ('SC',), ('XD', '1.0', None, -1)]))
 
 
 def flatten(node, out):
